@@ -215,7 +215,7 @@ def check_case(res, T, v, rng, bt=None):
     group = [('plain', bt.obj)]
     kinds = ['route', 'route', 'clone', 'decode-variant', 'route', 'clone', 'decode-variant']
     if U.base_of(T)[0] in CONSTRUCTED_KINDS:
-        kinds += ['rework', 'rework']
+        kinds += ['rework', 'rework', 'rework']
     for kind in rng.sample(kinds, rng.randint(3, 7)):
         try:
             obj = make_history(bt, rng, kind, used)
@@ -316,6 +316,18 @@ def run_shard(shard, tier, seed):
         if budget.expired(res):
             break
         T, v = C.gen_case(rng, tier)
+        if i % 8 == 7:
+            # a SET whose canonical member order hangs on which alternative a NESTED untagged CHOICE holds: the shape
+            # for which encoders keep sort keys and effective tags, and which the rework route re-selects in place
+            nums = rng.sample(range(0, 14), 7)
+            leaf = lambda n: ('tag', 'I', 'C', n, rng.choice([('int',), ('octs',), ('bool',), ('null',)]))
+            inner = ('choice', (('b0', leaf(nums[0])), ('b1', leaf(nums[1])), ('b2', leaf(nums[2]))))
+            T2 = ('set', (('m0', leaf(nums[3]), 'req', None),
+                          ('c', ('choice', (('a0', inner), ('a1', leaf(nums[4])))), 'req', None),
+                          ('m1', leaf(nums[5]), 'opt', None), ('m2', leaf(nums[6]), 'req', None)))
+            if U.is_legal(T2):
+                T, v = T2, U.gen_value(rng, T2, C.opts_for(tier, rng), small=True)
+                res.see('cases-on-a-set-around-a-nested-choice')
         try:
             check_case(res, T, v, rng)
         except Exception:
